@@ -1729,9 +1729,11 @@ VB_dealloc(VB* self)
 
 /*
     def changed(self, originally_changed):
+        verify_ro = self._registry.ro[1:]
+        verify_generations = [r._generation for r in verify_ro]
         super(VerifyingBasePy, self).changed(originally_changed)
-        self._verify_ro = self._registry.ro[1:]
-        self._verify_generations = [r._generation for r in self._verify_ro]
+        self._verify_ro = verify_ro
+        self._verify_generations = verify_generations
 */
 static PyObject*
 _generations_tuple(PyObject* ro)
@@ -1758,8 +1760,6 @@ static PyObject*
 verify_changed(VB* self, PyObject* ignored)
 {
     PyObject *t, *ro;
-
-    VB_clear(self);
 
     t = PyObject_GetAttr(OBJECT(self), str_registry);
     if (t == NULL)
@@ -1788,6 +1788,10 @@ verify_changed(VB* self, PyObject* ignored)
         Py_DECREF(ro);
         return NULL;
     }
+
+    /* Drop the caches now that the generations are read, and before they
+       are recorded: see the Python implementation. */
+    LB_clear((LB*)self);
 
     Py_XSETREF(self->_verify_generations, t);
     Py_XSETREF(self->_verify_ro, ro);
